@@ -129,9 +129,13 @@ def locate(expected, text):
         return 0, True, []
     cands = []
     i = expected.find(b)
-    while i >= 0 and len(cands) < 200:
+    while i >= 0:
         cands.append(i)
         i = expected.find(b, i + 1)
+    if len(cands) > 200:
+        # a very short return (the last bytes of a long content) occurs thousands of times: the list given to TLC keeps
+        # true occurrences only (so it can never make a wrong return acceptable), the first and the last hundred
+        cands = cands[:100] + cands[-100:]
     return len(b), False, cands
 
 
@@ -168,7 +172,9 @@ def trace_of(s, run, expected, root_kind):
 
 def build_sources(binary, base, rng, tier):
     """create the packs the views are taken from; returns list of source descriptors"""
-    lens = [6, 96, 4200, 200000] if tier == "quick" else [6, 13, 96, 600, 4200, 70000, 200000]
+    # (3072: positions and read sizes are then multiples of 512, so that a short access is followed by a read that starts
+    #  exactly one 1024-byte file buffer further)
+    lens = [6, 96, 3072, 4200, 200000] if tier == "quick" else [6, 13, 96, 600, 3072, 4200, 6144, 70000, 200000]
     ops = []
     for i, ln in enumerate(lens):
         ops.append({"cid": 900 + i, "size": 37 + i, "cls": "rand", "hint": "detect"})     # keeps targets off offset 0
@@ -245,6 +251,17 @@ def run(prop, tier):
     behs.append([{"op": "cut", "v": 1, "a": 1, "n": 4}, {"op": "cut", "v": 2, "a": 1, "n": 3}, {"op": "cut", "v": 3, "a": 1, "n": 1},
                  {"op": "to_region", "v": 4, "a": 0, "n": 0}, {"op": "into_stream", "v": 5, "a": 0, "n": 0}, {"op": "read", "v": 6, "a": 0, "n": 5},
                  {"op": "stream", "v": 3, "a": 0, "n": 0}, {"op": "read", "v": 7, "a": 0, "n": 1}, {"op": "read", "v": 7, "a": 0, "n": 5}])
+    # accesses through different views of one source that follow each other at particular distances (a short access, then a
+    # read that starts exactly 2 / 4 units further - one 1024-byte file buffer when the unit is 512 / 256): run on every source
+    O = lambda op, v, a=0, n=0: {"op": op, "v": v, "a": a, "n": n}
+    interplay = [
+        [O("stream", 1), O("cut", 1, 2, 4), O("stream", 3), O("get_slice", 1, 0, 1), O("read", 4, 0, 1), O("read", 2, 0, 1), O("read", 4, 0, 1),
+         O("get_slice", 1, 1, 1), O("read", 4, 0, 2)],
+        [O("stream", 1), O("cut", 1, 2, 4), O("stream", 3), O("read", 2, 0, 1), O("read", 4, 0, 1), O("read", 2, 0, 1), O("read", 4, 0, 1)],
+        [O("cut", 1, 4, 2), O("stream", 2), O("cut", 1, 0, 1), O("stream", 4), O("read", 5, 0, 1), O("read", 3, 0, 1), O("get_slice", 1, 2, 1), O("read", 3, 0, 1)],
+    ]
+    n_tlc = len(behs)
+    behs += interplay
     C.log("[%s] design level done %.0fs (%d behaviours)" % (prop, time.time() - rep.t0, len(behs)))
     base = os.path.join(C.WORK, "run_%s" % prop)
     shutil.rmtree(base, ignore_errors=True)
@@ -254,7 +271,7 @@ def run(prop, tier):
     k = 0
     for bi, beh in enumerate(behs):
         # every behaviour on a rotating subset of the sources (all of them in thorough)
-        srcs = sources if tier == "thorough" else [sources[(bi * 5 + j * 7) % len(sources)] for j in range(4)]
+        srcs = sources if (tier == "thorough" or bi >= n_tlc) else [sources[(bi * 5 + j * 7) % len(sources)] for j in range(4)]
         for src in srcs:
             ops = beh
             if src["root"] == "slice":
@@ -291,7 +308,7 @@ def run(prop, tier):
     rep.cov["distinct_nontrivial"] = len(nontrivial)
     rep.cov["source_kinds"] = sorted(set(s["name"].split(":")[0] for s in sources))
     rep.cov["rule"] = ("behaviours = TLC simulation of MC_Views (9 operations over a content of abstract length 6: nested cuts, conversions, streams, reads, get_slice) "
-                       "+ hand-written full read partitions and depth-3 nestings, each scaled to the real length and replayed on source kinds %s (none at offset 0 of its source); "
+                       "+ hand-written full read partitions, depth-3 nestings and interleaved accesses through several views at distances of 2 and 4 units (on every source), each scaled to the real length and replayed on source kinds %s (none at offset 0 of its source); "
                        "distinct = different (source, behaviour); all non-trivial" % rep.cov["source_kinds"])
     rep.assumptions += ["returned bytes are located in the expected content by search (position-coded contents); empty returns are checked by size only"]
     shutil.rmtree(base, ignore_errors=True)
